@@ -31,23 +31,12 @@ inductive Atom where
   | str (s : Str)
   deriving DecidableEq, Repr, Inhabited
 
-inductive Val where
-  | atom (a : Atom)
-  | list (xs : List Atom)
-  | opaque (tag : Str)        -- functions put into the context (`defined`, `_i18n.gettext`, …)
-  deriving DecidableEq, Repr, Inhabited
-
 /-- Python truthiness -/
 def Atom.truthy : Atom → Bool
   | .none => false
   | .bool b => b
   | .int n => n != 0
   | .str s => !s.isEmpty
-
-def Val.truthy : Val → Bool
-  | .atom a => a.truthy
-  | .list xs => !xs.isEmpty
-  | .opaque _ => true
 
 /-- numeric view of bool/int (Python: `True == 1`) -/
 def Atom.num? : Atom → Option Int
@@ -71,12 +60,6 @@ def atomsEq : List Atom → List Atom → Bool
   | a :: as, b :: bs => a.pyEq b && atomsEq as bs
   | _, _ => false
 
-def Val.pyEq : Val → Val → Bool
-  | .atom a, .atom b => a.pyEq b
-  | .list xs, .list ys => atomsEq xs ys
-  | .opaque s, .opaque t => s == t
-  | _, _ => false
-
 def digitsOfInt (n : Int) : Str :=
   if n < 0 then '-' :: Nat.toDigits 10 n.natAbs else Nat.toDigits 10 n.natAbs
 
@@ -88,93 +71,32 @@ def Atom.text : Atom → Str
   | .int n => digitsOfInt n
   | .str s => s
 
-/-! ## the context (`genshi/template/base.py` `Context`) -/
-
-/-- a frame is a dict in insertion order -/
-abbrev Frame := List (Str × Val)
-
-def Frame.get? : Frame → Str → Option Val
-  | [], _ => none
-  | (k, v) :: rest, key => if k = key then some v else Frame.get? rest key
-
-/-- `d[key] = v`: an existing key keeps its position -/
-def Frame.set : Frame → Str → Val → Frame
-  | [], key, v => [(key, v)]
-  | (k, w) :: rest, key, v => if k = key then (k, v) :: rest else (k, w) :: Frame.set rest key v
-
-/-- `[matched, has_test, value]` on `Context._choice_stack` -/
-structure Choice where
-  matched : Bool
-  hasTest : Bool
-  value : Option Val
-  deriving DecidableEq, Repr, Inhabited
-
-structure Ctx where
-  frames : List Frame        -- head = `frames[0]`, the innermost scope (`push = appendleft`)
-  choice : List Choice       -- head = `_choice_stack[-1]`
-  deriving DecidableEq, Repr, Inhabited
-
-def sDefined : Str := ['d', 'e', 'f', 'i', 'n', 'e', 'd']
-def sValueOf : Str := ['v', 'a', 'l', 'u', 'e', '_', 'o', 'f']
-
-/-- `Context(**data)`: one frame; `defined` / `value_of` are added with `setdefault` -/
-def Ctx.new (data : Frame) : Ctx :=
-  let d1 := if (Frame.get? data sDefined).isSome then data else data ++ [(sDefined, .opaque sDefined)]
-  let d2 := if (Frame.get? d1 sValueOf).isSome then d1 else d1 ++ [(sValueOf, .opaque sValueOf)]
-  { frames := [d2], choice := [] }
-
-/-- `Context.get` / `_find`: innermost frame that has the key -/
-def lookupFrames : List Frame → Str → Option Val
-  | [], _ => none
-  | f :: fs, key =>
-    match Frame.get? f key with
-    | some v => some v
-    | none => lookupFrames fs key
-
-def Ctx.push (c : Ctx) (f : Frame) : Ctx := { c with frames := f :: c.frames }
-/-- `ctxt.pop()` = `frames.popleft()` -/
-def Ctx.pop (c : Ctx) : Ctx := { c with frames := c.frames.tail }
-/-- `ctxt[key] = v` writes `frames[0]` -/
-def Ctx.setTop (c : Ctx) (key : Str) (v : Val) : Ctx :=
-  match c.frames with
-  | [] => c
-  | f :: fs => { c with frames := Frame.set f key v :: fs }
-
 /-! ## expressions -/
+
+/-- literal values of the expression fragment -/
+inductive Lit where
+  | atom (a : Atom)
+  | list (xs : List Atom)
+  deriving DecidableEq, Repr, Inhabited
 
 inductive Expr where
   | var (n : Str)
-  | lit (v : Val)
+  | lit (v : Lit)
   | eq (a b : Expr)
   | not (a : Expr)
+  | call0 (f : Str)                 -- `f()`
+  | call1 (f : Str) (a : Expr)      -- `f(a)`
   deriving DecidableEq, Repr, Inhabited
 
 inductive Err where
   | undefined          -- UndefinedError (strict lookup)
-  | typeError          -- TypeError (`iter(5)`)
+  | typeError          -- TypeError (`iter(5)`, calling a non-callable)
+  | attribute          -- AttributeError (a macro parameter without argument and without default)
   | runtime            -- TemplateRuntimeError (`py:when` outside `py:choose`)
   | stopIter           -- RuntimeError: generator raised StopIteration
   | unmodelled         -- construct outside the modelled fragment
   | fuel               -- the step did not finish within the fuel given
   deriving DecidableEq, Repr, Inhabited
-
-def eval (fs : List Frame) : Expr → Except Err Val
-  | .var n =>
-    match lookupFrames fs n with
-    | some v => .ok v
-    | none => .error .undefined
-  | .lit v => .ok v
-  | .eq a b =>
-    match eval fs a with
-    | .error e => .error e
-    | .ok x =>
-      match eval fs b with
-      | .error e => .error e
-      | .ok y => .ok (.atom (.bool (x.pyEq y)))
-  | .not a =>
-    match eval fs a with
-    | .error e => .error e
-    | .ok x => .ok (.atom (.bool (!x.truthy)))
 
 /-! ## template events, directive objects, the heap -/
 
@@ -193,6 +115,7 @@ inductive DirKind where
   | pyWhen (e : Option Expr)
   | pyOtherwise
   | pyStrip (e : Option Expr)
+  | pyDef (name : Str) (params : List (Str × Option Expr))   -- positional parameters, optional defaults
   | i18nDomain (d : Str)
   | i18nComment (c : Str)
   | i18nCtxt (c : Str)
@@ -249,5 +172,141 @@ def readEvs (h ph : Heap) : Ref → Option (List TEv)
 def readDirs (h ph : Heap) : Ref → Option (List Dir)
   | .tmpl a => match h[a]? with | some (.dirs l) => some l | _ => none
   | .priv a => match ph[a]? with | some (.dirs l) => some l | _ => none
+
+
+/-! ## run-time values -/
+
+/-- what `py:def` stores in the context: the function closes over the copy of its sub-stream and the
+    directives that follow `py:def` on the element (its context is the render's own) -/
+structure Macro where
+  name : Str
+  params : List (Str × Option Expr)
+  body : List TEv
+  rest : List Dir
+  deriving DecidableEq, Repr, Inhabited
+
+inductive Val where
+  | atom (a : Atom)
+  | list (xs : List Atom)
+  | opaque (tag : Str)        -- functions put into the context (`defined`, `_i18n.gettext`, …)
+  | macro (m : Macro)         -- a function defined by `py:def`
+  | gen0 (m : Macro)          -- the generator object `f()` returns: nothing has run yet
+  | gen1 (m : Macro) (a : Val)
+  deriving DecidableEq, Repr, Inhabited
+
+def Lit.val : Lit → Val
+  | .atom a => .atom a
+  | .list xs => .list xs
+
+def Val.truthy : Val → Bool
+  | .atom a => a.truthy
+  | .list xs => !xs.isEmpty
+  | _ => true
+
+def Val.pyEq : Val → Val → Bool
+  | .atom a, .atom b => a.pyEq b
+  | .list xs, .list ys => atomsEq xs ys
+  | .opaque s, .opaque t => s == t
+  | _, _ => false
+
+/-! ## the context (`genshi/template/base.py` `Context`) -/
+
+/-- a frame is a dict in insertion order -/
+abbrev Frame := List (Str × Val)
+
+def Frame.get? : Frame → Str → Option Val
+  | [], _ => none
+  | (k, v) :: rest, key => if k = key then some v else Frame.get? rest key
+
+/-- `d[key] = v`: an existing key keeps its position -/
+def Frame.set : Frame → Str → Val → Frame
+  | [], key, v => [(key, v)]
+  | (k, w) :: rest, key, v => if k = key then (k, v) :: rest else (k, w) :: Frame.set rest key v
+
+/-- `[matched, has_test, value]` on `Context._choice_stack` -/
+structure Choice where
+  matched : Bool
+  hasTest : Bool
+  value : Option Val
+  deriving DecidableEq, Repr, Inhabited
+
+structure Ctx where
+  frames : List Frame        -- head = `frames[0]`, the innermost scope (`push = appendleft`)
+  choice : List Choice       -- head = `_choice_stack[-1]`
+  deriving DecidableEq, Repr, Inhabited
+
+def sDefined : Str := ['d', 'e', 'f', 'i', 'n', 'e', 'd']
+def sValueOf : Str := ['v', 'a', 'l', 'u', 'e', '_', 'o', 'f']
+
+/-- `Context(**data)`: one frame; `defined` / `value_of` are added with `setdefault` -/
+def Ctx.new (data : Frame) : Ctx :=
+  let d1 := if (Frame.get? data sDefined).isSome then data else data ++ [(sDefined, .opaque sDefined)]
+  let d2 := if (Frame.get? d1 sValueOf).isSome then d1 else d1 ++ [(sValueOf, .opaque sValueOf)]
+  { frames := [d2], choice := [] }
+
+/-- `Context.get` / `_find`: innermost frame that has the key -/
+def lookupFrames : List Frame → Str → Option Val
+  | [], _ => none
+  | f :: fs, key =>
+    match Frame.get? f key with
+    | some v => some v
+    | none => lookupFrames fs key
+
+def Ctx.push (c : Ctx) (f : Frame) : Ctx := { c with frames := f :: c.frames }
+/-- `ctxt.pop()` = `frames.popleft()` -/
+def Ctx.pop (c : Ctx) : Ctx := { c with frames := c.frames.tail }
+/-- `ctxt[key] = v` writes `frames[0]` -/
+def Ctx.setTop (c : Ctx) (key : Str) (v : Val) : Ctx :=
+  match c.frames with
+  | [] => c
+  | f :: fs => { c with frames := Frame.set f key v :: fs }
+
+/-- `ctxt.frames[-1][key] = v` (where `py:def` stores its function) -/
+def setBottom : List Frame → Str → Val → List Frame
+  | [], _, _ => []
+  | [f], key, v => [Frame.set f key v]
+  | f :: fs, key, v => f :: setBottom fs key v
+
+/-! ## evaluation -/
+
+/-- calling what the name is bound to -/
+def callVal (f : Option Val) (arg : Option Val) : Except Err Val :=
+  match f with
+  | none => .error .undefined
+  | some (.macro m) =>
+    (match arg with
+     | none => .ok (.gen0 m)
+     | some a => .ok (.gen1 m a))
+  | some (.opaque _) => .error .unmodelled
+  | some _ => .error .typeError
+
+def eval (fs : List Frame) : Expr → Except Err Val
+  | .var n =>
+    match lookupFrames fs n with
+    | some v => .ok v
+    | none => .error .undefined
+  | .lit v => .ok v.val
+  | .eq a b =>
+    match eval fs a with
+    | .error e => .error e
+    | .ok x =>
+      match eval fs b with
+      | .error e => .error e
+      | .ok y => .ok (.atom (.bool (x.pyEq y)))
+  | .not a =>
+    match eval fs a with
+    | .error e => .error e
+    | .ok x => .ok (.atom (.bool (!x.truthy)))
+  | .call0 f =>
+    match lookupFrames fs f with
+    | none => .error .undefined
+    | some fv => callVal (some fv) none
+  | .call1 f a =>
+    match lookupFrames fs f with
+    | none => .error .undefined
+    | some fv =>
+      match eval fs a with
+      | .error e => .error e
+      | .ok x => callVal (some fv) (some x)
 
 end Genshi.Heap
